@@ -36,7 +36,7 @@ COMPONENTS = {"real": ["setigen.cadence.Cadence.add_signal / overwrite_times / c
 ASSUMPTIONS = ["box frequency profiles are not combined with sub-sample integration (knife-edge pixels)",
                "an interrupt delivered on the cadence loop's own restore statement is out of scope",
                "the failing frame's own data is not judged after a fault"]
-PROBES = ["consolidated_one_frame_cadence", "options_by_position", "frame_with_own_time_origin", "callback_raised_on_frame_k>0", "interrupt_inside_later_frame", "integrate_path", "integrate_t_profile",
+PROBES = ["overwrite_times_called_after_construction", "consolidated_one_frame_cadence", "options_by_position", "frame_with_own_time_origin", "callback_raised_on_frame_k>0", "interrupt_inside_later_frame", "integrate_path", "integrate_t_profile",
           "integrate_f_profile", "doppler_smearing", "slice_subset", "label_subset", "repeated_injection", "gaps_between_frames",
           "array_path", "bounding_range", "stateful_rfi_path", "noncontiguous_subset", "parent_built_with_t_overwrite", "second_injection_through_other_selection"]
 MAX_LINE_POINTS = 1500
@@ -95,7 +95,8 @@ def generate(rng, tier):
             "select2": rng.choice([None, None, "all", "slice", "stride", "index", "label" if ordered else "slice"]),
             "path": path, "t": tprof, "f": fprof, "bp": bp, "opts": opts, "bounding": bounding,
             "repeats": rng.choice([1, 1, 2]), "t_slew": rng.choice([0.0, 10.0, 300.25]), "ops": [],
-            "positional": rng.choice([0, 0, 0, 2, 3, 5, 8])}
+            "positional": rng.choice([0, 0, 0, 2, 3, 5, 8]),
+            "ow_form": rng.choice(["ctor", "ctor", "append", "grow", "reassign"])}
 
 
 def simplify(sc):
@@ -514,7 +515,25 @@ def execute(sc, ctx):
 
     # ---- overwrite_times and consolidate ---------------------------------------------
     fr2 = build_frames(sc)
-    c2 = stg.Cadence(fr2, t_slew=sc["t_slew"], t_overwrite=True)
+    form = sc.get("ow_form", "ctor")
+    if form == "append":
+        # built up frame by frame, as the documentation does, then laid out
+        c2 = stg.Cadence(t_slew=sc["t_slew"])
+        for f in fr2:
+            c2.append(f)
+        c2.overwrite_times()
+    elif form == "grow" and len(fr2) > 1:
+        c2 = stg.Cadence(fr2[:1], t_slew=sc["t_slew"], t_overwrite=True)
+        c2.extend(fr2[1:])
+        c2.overwrite_times()
+    elif form == "reassign":
+        c2 = stg.Cadence(fr2, t_slew=sc["t_slew"] + 17.0, t_overwrite=True)
+        c2.t_slew = sc["t_slew"]
+        c2.overwrite_times()
+    else:
+        c2 = stg.Cadence(fr2, t_slew=sc["t_slew"], t_overwrite=True)
+    if form != "ctor":
+        ctx.hit("overwrite_times_called_after_construction")
     st = np.asarray(c2.slew_times)
     tol = np.array([4 * math.ulp(max(abs(f.t_start), 1.0)) for f in fr2[1:]])
     ctx.check(st.shape == (len(fr2) - 1,) and np.all(np.abs(st - sc["t_slew"]) <= tol), "slew", "C16/overwrite_times/slew_spacing",
